@@ -209,6 +209,65 @@ static void do_permiter(vh::Out &o, long long ci, const std::vector<std::string>
     o.end();
 }
 
+// concurrent callers: n plain threads (all with OpenMP thread number 0) permute their own states at the same time through
+// one entry point; afterwards every result is compared with the scalar out-of-place call made single-threaded.  A sample
+// of the calls and every disagreeing call is logged as an `iter` event of length one (judged by TLC like any other).
+static void do_permconc(vh::Out &o, long long ci, const std::vector<std::string> &t)
+{
+    int n = atoi(t[1].c_str()), reps = atoi(t[2].c_str()), variant = atoi(t[3].c_str());
+    uint64_t seed = vh::parse_u64(t[4]);
+    if (n < 1 || n > 32)
+        n = 8;
+    std::vector<uint64_t> ins((size_t)n * reps * 12), outs((size_t)n * reps * 12);
+    {
+        vh::Rng r(seed);
+        for (auto &x : ins)
+            x = r.word();
+    }
+    vh::concurrently(n, [&](int tid) {
+        for (int k = 0; k < reps; k++)
+        {
+            E st[12], res[12];
+            size_t off = ((size_t)tid * reps + k) * 12;
+            memcpy(st, &ins[off], 96);
+            if (variant == 0)
+                PoseidonGoldilocks::hash_full_result_seq(res, st);
+            else if (variant == 1)
+                PoseidonGoldilocks::hash_full_result(res, st);
+            else
+            {
+                PoseidonGoldilocks::hash_full_result(st, st);
+                memcpy(res, st, 96);
+            }
+            memcpy(&outs[off], res, 96);
+        }
+    });
+    int logged = 0, bad = 0;
+    for (size_t c = 0; c < (size_t)n * reps; c++)
+    {
+        E st[12], ref[12];
+        memcpy(st, &ins[c * 12], 96);
+        PoseidonGoldilocks::hash_full_result_seq(ref, st);
+        bool differs = memcmp(ref, &outs[c * 12], 96) != 0;
+        bool sample = c % (((size_t)n * reps) / 3 + 1) == 0;
+        if ((differs && bad < 3) || sample)
+        {
+            o.begin("iter");
+            o.num("ci", ci);
+            o.num("k", 1);
+            o.num("variant", 10 + variant);
+            o.num("order", 1);
+            o.num("concurrent", n);
+            o.w64arr("in", &ins[c * 12], 12);
+            o.w64arr("outs", &outs[c * 12], 12);
+            o.w64arr("ref", (uint64_t *)ref, 12);
+            o.end();
+            logged++;
+        }
+        bad += differs;
+    }
+}
+
 static void fill(std::vector<uint64_t> &v, uint64_t seed)
 {
     vh::Rng r(seed);
@@ -403,6 +462,8 @@ static void do_case(vh::Out &o, long long ci, const std::vector<std::string> &t)
         do_permchain(o, ci, t);
     else if (t[0] == "permiter")
         do_permiter(o, ci, t);
+    else if (t[0] == "permconc")
+        do_permconc(o, ci, t);
     else if (t[0] == "lh")
         do_lh(o, ci, vh::parse_u64(t[1]), vh::parse_u64(t[2]), t.size() > 3 ? atoi(t[3].c_str()) : 0, t.size() > 4 ? atoi(t[4].c_str()) : 0);
     else if (t[0] == "mt")
